@@ -199,6 +199,10 @@ def run(rep: Report, tier: str) -> None:
                             f"DataFrame Date column with the values {vals}: stored as {'TIMESTAMP' if is_ts else 'DATE'} (overrides = {got}); it must be TIMESTAMP exactly when SOME value has a "
                             f"time part: a column mixing plain dates and date-times stored as DATE silently drops the times, while the CSV loader (always TIMESTAMP) keeps them"))
             break
+    # ---- R18.8: a load error is a VTL error in every input form: the mapper that converts it cannot fail itself ----
+    rep.rule("R18.8", "map_duckdb_error (the CSV / DataFrame / Parquet loaders' error mapper) guards every partial operation on the engine's message")
+    from sa.checks.c32 import mapper_partial_operations
+    mapper_partial_operations(P, rep, "R18.8")
     # ---- R18.7: the fetch formats each TIMESTAMP column by ITS OWN content (CSV stores every Date as TIMESTAMP, DataFrames only those with a time) ----
     rep.rule("R18.7", "result fetch: a TIMESTAMP column is rendered with a time of day iff that column holds one (decided per column, evaluated on a model table)")
     fs = P.func("vtlengine.duckdb_transpiler.io._execution._build_dataset_fetch_select")
